@@ -17,6 +17,11 @@ CHECKS = {
          'BFS over every history (quick: depth 5 or the depth completed within the wall cap; thorough: depth 8 under a 40 min cap) of {init smallest/all, init-invoice, lock, receive, finalize, cancel, post, mine, refresh} on two slate slots of a wallet with three mature outputs, every step a call of the real libwallet API against a real grin chain. Invariant in every state: input sets of live TxSent entries (from stored context, stored tx file and the harness lock record) are pairwise disjoint; postcondition: a repeated lock/receive/finalize is refused or changes nothing; refused steps change nothing.',
          'Two slates, one account, three outputs; completed depth reported in evidence. State identity is a projection without timestamps/nonces.',
          'DESIGN.md §3 C03'),
+ 'C04': ('model_checking',
+         'explicit-state breadth-first search over wallet/chain histories with a chain-truth oracle, plus exhaustive node-fault enumeration of refresh',
+         'BFS (quick depth 3 or the depth completed under the wall cap; thorough depth 5 under a 25 min cap per base) from two base states over {mine to A.default / A.acct1 / B / miner, send A->B (two parameterisations), B->A, A.acct1->B, invoice, self-send across accounts, account switch, refresh A / B, restart A} on a real grin chain. After every successful refresh: the account\'s Unspent/Locked records == its commitments in the chain UTXO set (truth computed by rewinding every UTXO range proof with the seed), the summary figures at min_conf 1/3/10 equal the partition recomputed from chain heights / maturity / reservation, confirmed credits - debits == total + locked, and no other account\'s outputs changed. Plus, for every state within depth 1 (quick) / 2 (thorough), every index of a failing node call (transient and persistent outage) of refresh followed by a clean refresh must satisfy the same oracle.',
+         'Premise enforced by the alphabet (no cancel after post, no reorg). Two wallets, two accounts; completed depth reported.',
+         'DESIGN.md §3 C04'),
  'C05': ('model_checking',
          'exhaustive scenario enumeration on real two-wallet worlds with an exact-diff oracle between snapshots',
          'Every scenario of the product kind {sent, received, invoice payer, invoice issuer, late-locked, self-send sent/received side, sent spending an unconfirmed output (min_conf 0)} x change count {0,1,2} x stage {early, mid, finalized-not-posted} x other pending transactions {0,1,3} x addressing {log id, slate id} (quick: a stated sub-product) plus five refusal cases is executed on a real chain and real LMDB wallets; snapshots before creation, before cancel and after cancel are compared against the exact diff the statement allows (outputs, log entries, contexts, balances at min_conf 0/1/10, counterparty untouched).',
